@@ -3,6 +3,7 @@ Instance families for the bounded-structure tier.  Every entry is (label, factor
 factory returns a fresh Spec.  Labels are stable: known_findings.txt and the native replay
 harness refer to them.  Back-end agnostic (no z3, no casadi import at module level).
 """
+import casadi as ca
 from .spec import Spec, E, Con, inf
 
 ALLP = {"": [1], "control": [1], "control+": [1]}
@@ -53,6 +54,7 @@ def c01(tier):
 
 def c04(tier):
     out = []
+    out += scaled_bound_instances('C04')
     cons_basic = lambda: [Con(E("c1", 1, ("x", "u", "t", "pc", "vc")), "le", 1.0),
                           Con(E("c2", 2, ("x",)), "box", 2.0, lhs=-1.0, include_first=False),
                           Con(E("c3", 1, ("x", "u")), "ge", 0.0, include_last=False),
@@ -106,6 +108,23 @@ def c04(tier):
     for meth in ("MS", "SS"):
         out.append(("%s-N2-roots" % meth, _mk(method=meth, N=2, M=1, ode=E("f", None, ("x", "u", "t")), expect_reject="grid-the-method-cannot-place",
                                               constraints=[Con(E("cr", 1, ("x", "u", "t")), "le", 1.0, grid="integrator_roots")])))
+    return out
+
+
+def scaled_bound_instances(prop):
+    """scaled constraints whose bounds are (a) expressions of parameters, (b) vectors with infinite entries on either side"""
+    out = []
+    inf = float("inf")
+    for meth in ("MS", "SS", "DC"):
+        cons = lambda: [Con(E("cx", 1, ("x", "u")), "le", E("ub_p", 1, ("p",)), scale="unknown"),
+                        Con(E("cg", 1, ("x",)), "ge", E("lb_pc", 1, ("pc",)), scale="unknown"),
+                        Con(E("cb", 1, ("x", "u")), "box", E("ub2_p", 1, ("p",)), lhs=E("lb2_p", 1, ("p",)), scale="unknown"),
+                        Con(E("b0", 1, (("at", "t0", "x"),)), "eq", E("x0_p", 1, ("p",)), scale="unknown"),
+                        Con(E("cv", 2, ("x", "u")), "box", ca.DM([2.0, inf]), lhs=ca.DM([-inf, -1.0]), scale=4.0),
+                        Con(E("cw", 2, ("x",)), "le", ca.DM([inf, 3.0]), scale=0.5),
+                        Con(E("cy", 2, ("x",)), "ge", ca.DM([-1.5, -inf]), scale=ca.DM([2.0, 3.0]))]
+        out.append(("%s-scaled-parametric-and-partly-infinite-bounds" % meth,
+                    _mk(method=meth, N=2, M=1, degree=2, params={"": [1], "control": [1]}, ode=E("f", None, ("x", "u", "p")), constraints=cons())))
     return out
 
 
@@ -219,6 +238,7 @@ def c06(tier):
 
 def c14(tier):
     out = []
+    out += scaled_bound_instances('C14')
     sc = {"x": "unknown", "u": "unknown", "z": "unknown", "v": "unknown", "vcontrol": "unknown", "vcontrol+": "unknown", "der": "unknown"}
     cons = lambda: [Con(E("c1", 1, ("x", "u", "v", "vc")), "le", 1.0, scale=4.0),
                     Con(E("c2", 2, ("x",)), "box", 2.0, lhs=-1.0, scale=0.5),
@@ -279,6 +299,7 @@ def c02(tier):
 
 def c09(tier):
     out = []
+    out += scaled_bound_instances('C09')
     P = {"": [1, 2], "control": [1, 2], "control+": [2]}
     PM = {"": [(2, 2)], "control": [(2, 2), 1], "control+": [(1, 2)]}        # matrix-valued parameters
     for meth in ("MS", "SS", "DC"):
@@ -331,6 +352,14 @@ def c10(tier):
             else:
                 out.append(("%s-N%d-M%d-arrays" % (meth, N, M), _mk(method=meth, N=N, M=M, degree=2, initial=arrays(N, True), **base)))
                 out.append(("%s-N%d-M%d-arraysN" % (meth, N, M), _mk(method=meth, N=N, M=M, degree=2, initial=arrays(N, False), **base)))
+        # a guess that is exactly ZERO is a guess like any other: it replaces an earlier non-zero one (before and after the first
+        # transcription), and a zero t0 guess overrides the FreeTime value
+        zeros = lambda: [(("x", 0), 0.0), (("u", 0), ca.DM([[1.0, 0.0, 3.0]])), ((("v", ""), 0), 0), ((("v", "control+"), 0), ca.DM.zeros(1, 4))]
+        for after in (0, 4):
+            out.append(("%s-N3-M2-zero-guess-over-nonzero%s" % (meth, "-after-transcription" if after else ""),
+                        _mk(method=meth, N=3, M=2, degree=2, initial=consts() + zeros(), initial_after=after, **base)))
+        out.append(("%s-N3-M1-zero-t0-guess-over-FreeTime" % meth, _mk(method=meth, N=3, M=1, degree=2, T=("free", 1.5), t0=("free", 2.0),
+                                                                       initial=[("t0", 0.0)] + texpr_states(), **base)))
         # guesses given after the first transcription produce the same starting point
         out.append(("%s-N3-M2-after-all" % meth, _mk(method=meth, N=3, M=2, degree=2, T=("free", 1.5), t0=("free", 0.25), initial=consts() + texpr_controls(), initial_after="all", **base)))
         out.append(("%s-N3-M2-after-T-guess" % meth, _mk(method=meth, N=3, M=2, degree=2, T=("free", 1.0), t0=("free", 0.0),
